@@ -22,12 +22,12 @@ Hypothesis Horder : wf_order order.
    both builds return the clean value) *)
 Theorem refines_spec_values env fuel ss k ss' ifuel pfuel s sched sf m : (rank k < fuel)%nat ->
   AtRest F (fixedR rules) ss -> build rules env F order fuel ss k = Ok ss' ->
-  HInv rules F s -> ibuild rules env F ord syncp ifuel pfuel s k sched = (RDone sf, m) -> is_fault sf = None ->
+  HInv F (fixedR rules) s -> ibuild rules env F ord syncp ifuel pfuel s k sched = (RDone sf, m) -> is_fault sf = None ->
   res_value (res_of sf k) = result_of ss' k.
 Proof.
   intros Hk HA Hb Hh Hi Hn.
   rewrite (c01_incremental_eq_clean_thm rules env F order rank (fixedR rules) (fixedR_ok rules) Hrank Hwfd Horder fuel ss k ss' Hk HA Hb).
-  exact (proj1 (build_values_clean rules F rank ord syncp Hrank Hwfd Hord env ifuel pfuel fuel s k sched sf m Hh Hi Hn) Hk).
+  exact (proj1 (build_values_clean rules F rank (fixedR rules) ord syncp Hrank Hwfd (fixedR_ok rules) Hord env ifuel pfuel fuel s k sched sf m Hh Hi Hn) Hk).
 Qed.
 
 (* the same history of builds run by the specification engine *)
@@ -62,7 +62,7 @@ Theorem refines_spec_history fuel bs ssf vs1 sf vs2 : (forall b, In b bs -> (ran
 Proof.
   intros Hrk H1 H2.
   rewrite (spec_builds_clean fuel bs init_state ssf vs1 (AtRest_init F (fixedR rules)) H1 Hrk).
-  exact (proj1 (history_values_clean rules F rank ord syncp Hrank Hwfd Hord fuel bs init_istate sf vs2 (HInv_init rules F) H2 Hrk)).
+  exact (proj1 (history_values_clean rules F rank (fixedR rules) ord syncp Hrank Hwfd (fixedR_ok rules) Hord fuel bs init_istate sf vs2 (HInv_init F (fixedR rules)) H2 Hrk)).
 Qed.
 End Ref.
 
